@@ -4,7 +4,7 @@
    (Gen/Arith.v); the run-length algebra and the ROI queries are the models of Model/RLE.v, Model/ROI.v. *)
 From DV Require Import Base.Prelude Base.Int Base.WrapZ Gen.Consts Gen.Arith Gen.LocalConsts
   Model.Geometry Model.RLE Model.ROI Proofs.Geometry Proofs.RLE Proofs.ROI
-  Model.RLE2 Model.IZYX Proofs.RLE2 Proofs.IZYX.
+  Model.RLE2 Model.IZYX Proofs.RLE2 Proofs.IZYX Model.ROIPart Proofs.ROIPart.
 From Coq Require Import Sorting.Sorted Sorting.Permutation.
 Local Open Scope Z_scope.
 
@@ -323,6 +323,38 @@ Theorem C18_izyx_get_bounds_fixed : forall l, l <> [] -> Forall pt_is32 l ->
   is_bbox l (fst (get_bounds_fixed l)) (snd (get_bounds_fixed l)).
 Proof. exact get_bounds_fixed_ok. Qed.
 Print Assumptions C18_izyx_get_bounds_fixed.
+
+(* ---------- round 4: ROI partitioning (the reply of GET <roi>/partition) ---------- *)
+(* The check evaluates three booleans on the subvolumes the server reports; they mean: every block
+   of the ROI has exactly one owner among the subvolumes, no block at all lies in two subvolumes,
+   TotalBlocks is the volume of the box and ActiveBlocks the number of ROI blocks in it.  (No model
+   of the partitioner itself: these are statements about the oracle, for every reply.) *)
+Theorem C18_partition_tiles : forall spans vs, tiles_ok spans vs = true ->
+  forall b, in_spans b spans = true -> exists v, owners vs b = [v] /\ In v vs /\ box_has v b = true.
+Proof. exact tiles_sound. Qed.
+Print Assumptions C18_partition_tiles.
+Theorem C18_partition_no_block_twice : forall vs, boxes_disjointb vs = true ->
+  forall b, (length (owners vs b) <= 1)%nat.
+Proof. exact disjoint_sound. Qed.
+Print Assumptions C18_partition_no_block_twice.
+Theorem C18_partition_counts : forall spans vs, counts_ok spans vs = true ->
+  forall v, In v vs -> vtotal v = box_volume v
+                       /\ vactive v = Z.of_nat (length (filter (box_has v) (roi_blocks spans))).
+Proof. exact counts_sound. Qed.
+(* the reply of the code as it stands for spans {z=0: x 0..1} and {z=100: x 0..1}, batchsize 4:
+   the blocks at z = 100 have no owner *)
+Example C18_partition_empty_layer_reply :
+  let spans := [SP 0 0 0 1; SP 100 0 0 1] in
+  let vs := [SV (-1, 0, 0) (2, 3, 3) 64 2; SV (-1, 0, 4) (2, 3, 7) 64 2] in
+  boxes_disjointb vs = true /\ tiles_ok spans vs = false /\ owners vs (0, 0, 100) = []
+  /\ has_z_gap 4 spans = true.
+Proof. vm_compute. repeat split. Qed.
+Example C18_ex_partition :
+  let spans := [SP 0 0 0 1; SP 1 5 3 9] in
+  let vs := [SV (0, 0, 0) (1, 1, 1) 8 2; SV (3, 4, 0) (4, 5, 1) 8 2; SV (5, 4, 0) (6, 5, 1) 8 2;
+             SV (7, 4, 0) (8, 5, 1) 8 2; SV (9, 4, 0) (10, 5, 1) 8 1] in
+  boxes_disjointb vs = true /\ tiles_ok spans vs = true /\ counts_ok spans vs = true.
+Proof. vm_compute. repeat split. Qed.
 
 (* ---------- non-vacuity: the hypotheses are inhabited by non-trivial values ---------- *)
 Example C18_ex_round4_runs :
